@@ -23,7 +23,44 @@ Definition cset_prop (k : kind) (w : cwhich) : option bytes :=
   | _, _ => None
   end.
 
-Inductive xsres := XsTok (t : stok) | XsBool | XsOpen | XsUnsup.
+(* ---- copying every property by value (object::set(const object &)) ----
+   the value of a property as a source: a string as text, everything else as a typed value *)
+Definition src_of_pval (v : pval) : option source :=
+  match v with
+  | PStr s => Some (SText (Some (match s with Some t => t | None => [] end)) no_torc)
+  | PF64 b => Some (SValue (VD b None))
+  | PF32 b => Some (SValue (VF b 0))
+  | PInt z => Some (SValue (VI 120 z 0 0))
+  | PChr z => Some (SValue (VC z))
+  | PCol a r g b => Some (SValue (VCol a r g b))
+  | PPt x y => Some (SValue (VPt x y))
+  | PNone => None
+  end.
+(* the properties of the source in their order; a property the target refuses is skipped (log) or ends the copy *)
+Fixpoint spec_copy (k : kind) (log : bool) (props : aobj) (tg : aobj) : aobj :=
+  match props with
+  | [] => tg
+  | (n, v) :: r =>
+    match src_of_pval v with
+    | None => if log then spec_copy k log r tg else tg
+    | Some s => let '(acc, tg') := sset k tg tg (Some n) (ASrc s) in
+                if acc || log then spec_copy k log r tg' else tg'
+    end
+  end.
+(* is the object as a whole at its documented defaults? *)
+Definition all_default (k : kind) (o : aobj) : bool :=
+  forallb (fun nv => pval_eqb (snd nv) (ok_default k (fst nv))) o.
+
+(* mpt_lattr_set: every argument is taken when it is at most the attribute's maximum, a negative one stands for the
+   default; one argument beyond its maximum refuses the whole call.  Result (width, style, symbol, size). *)
+Definition attr_value (def hi v : Z) : option Z := if hi <? v then None else Some (if v <? 0 then def else v).
+Definition spec_lattr4 (w st sy sz : Z) : option (Z * Z * Z * Z) :=
+  match attr_value 1 10 w, attr_value 1 5 st, attr_value 0 8 sy, attr_value 10 20 sz with
+  | Some a, Some b, Some c, Some d => Some (a, b, c, d)
+  | _, _, _, _ => None
+  end.
+
+Inductive xsres := XsTok (t : stok) | XsBool | XsOpen | XsUnsup | XsTot (changed : bool).
 
 Definition xsstep (k : kind) (st : aobj * aobj) (p : xop) : (aobj * aobj) * xsres :=
   let '(a, b) := st in
@@ -43,6 +80,15 @@ Definition xsstep (k : kind) (st : aobj * aobj) (p : xop) : (aobj * aobj) * xsre
     | None => (st, XsUnsup)
     end
   | XLreset _ => (st, XsUnsup)
+  | XOset tb log =>
+    ((if tb then (a, spec_copy k log a b) else (spec_copy k log b a, b)), XsBool)
+  | XTmeta tb t =>
+    match k with
+    | KText => let v := PStr (Some (match t with Some x => x | None => [] end)) in
+               ((if tb then (a, aput b (bs "value") v) else (aput a (bs "value") v, b)), XsTok TK)
+    | _ => (st, XsUnsup)
+    end
+  | XTot tb => (st, XsTot (negb (all_default k (if tb then b else a))))
   | _ => (st, XsOpen)
   end.
 Fixpoint xsrun (k : kind) (st : aobj * aobj) (ops : list xop) : list (xsres * list sent * list sent) :=
@@ -85,6 +131,12 @@ Definition lsstep (st : aobj * aobj) (p : xop) : (aobj * aobj) * xsres :=
   | XCset tb WLfont t => (put tb (bs "font") (PStr (nonempty t)), XsBool)
   | XLreset tb => ((if tb then (a, layout_defaults) else (layout_defaults, b)), XsBool)
   | XConv _ _ => (st, XsOpen)
+  | XPinfo _ _ => (st, XsOpen)
+  | XTot tb => (st, XsTok (match aget (if tb then b else a) (bs "alias") with
+                           | Some v => TG (mksent (bs "layout") v false)
+                           | None => TR
+                           end))
+  | XOset tb _ => ((if tb then (a, a) else (b, b)), XsBool)
   | _ => (st, XsUnsup)
   end.
 Fixpoint lsrun (st : aobj * aobj) (ops : list xop) : list (xsres * list sent * list sent) :=
